@@ -186,7 +186,7 @@ func (reader *Reader) GetBytes(n int) ([]byte, error) {
 		return nil, NewInsufficientData(len(reader.Msg))
 	}
 
-	v := reader.Msg[:n]
+	v := reader.Msg[:n:n]
 	reader.Msg = reader.Msg[n:]
 	return v, nil
 }
